@@ -75,5 +75,77 @@ func sweep(g *gen) []*Script {
 			out = append(out, sc)
 		}
 	}
+	// (a) exactly ONE state-changing request fails (in every state it can be sent in), then the same
+	// kind of call again, other calls, Close
+	playAgain := []Call{{Api: "describe"}, {Api: "setup", Media: 0}, {Api: "setup", Media: 1}, {Api: "play"}, {Api: "play"},
+		{Api: "pause"}, {Api: "pause"}, {Api: "play"}, {Api: "pause"}, {Api: "options"}}
+	recAgain := []Call{{Api: "announce"}, {Api: "announce"}, {Api: "setup", Media: 0}, {Api: "setup", Media: 1}, {Api: "record"}, {Api: "record"},
+		{Api: "pause"}, {Api: "pause"}, {Api: "record"}, {Api: "pause"}, {Api: "options"}}
+	type fail struct {
+		acts []Action
+		abs  string
+	}
+	fails := []fail{
+		{[]Action{{Kind: "close"}}, "x"},
+		{[]Action{{Kind: "rst"}}, "x"},
+		{[]Action{}, "-"},
+		{[]Action{{Kind: "half"}}, "-"},
+		{[]Action{{Kind: "resp", Muts: []Mut{{Op: "set", K: "Session", V: "ABCDE;timeout=abc"}}}}, "r,se=b"},
+		{[]Action{{Kind: "resp", Muts: []Mut{{Op: "add", K: "Session", V: "S2"}, {Op: "add", K: "Session", V: "S3"}}}}, "r,se=b"},
+		{[]Action{{Kind: "resp", Muts: []Mut{{Op: "set", K: "CSeq", V: "abc"}}}}, "r,cs=w"},
+		{[]Action{{Kind: "resp", Muts: []Mut{{Op: "clen", V: "+50"}}}}, "?"},
+		{[]Action{{Kind: "resp", Muts: []Mut{{Op: "clen", V: "abc"}}, NoParse: true}}, "?"},
+		{[]Action{{Kind: "resp", Muts: []Mut{{Op: "status", V: "500 Oops"}}}}, "r,st=500"},
+		{[]Action{{Kind: "req", Method: "SET_PARAMETER"}}, "q0"},
+	}
+	for _, proto := range []int{3, 0} {
+		for _, flow := range []struct {
+			prog []Call
+			ms   []struct {
+				m string
+				n int
+			}
+		}{
+			{playAgain, []struct {
+				m string
+				n int
+			}{{"SETUP", 1}, {"SETUP", 2}, {"PLAY", 1}, {"PLAY", 2}, {"PAUSE", 1}, {"PAUSE", 2}}},
+			{recAgain, []struct {
+				m string
+				n int
+			}{{"ANNOUNCE", 1}, {"SETUP", 1}, {"SETUP", 2}, {"RECORD", 1}, {"RECORD", 2}, {"PAUSE", 1}, {"PAUSE", 2}}},
+		} {
+			for _, mt := range flow.ms {
+				fl := append([]fail{}, fails...)
+				if mt.m == "SETUP" {
+					fl = append(fl, fail{[]Action{{Kind: "resp", Muts: []Mut{{Op: "set", K: "Transport", V: "RTP/AVP;unicast;client_port=a-b"}}}}, "r,tr=0"},
+						fail{[]Action{{Kind: "resp", Muts: []Mut{{Op: "del", K: "Transport"}}}}, "r,tr=0"})
+				}
+				for _, f := range fl {
+					sc := &Script{Name: "sweep-fail-again", Model: f.abs != "?", Cfg: Cfg{Proto: proto, RTms: g.rt}, Medias: medias, Prog: flow.prog, Frames: true}
+					sc.React = []Reaction{{M: mt.m, N: mt.n, Acts: f.acts, Abs: f.abs}}
+					out = append(out, sc)
+				}
+			}
+		}
+	}
+	// (b) a 401 whose challenge changes with every answer (nonce, realm, stale): the retry happens once
+	for _, creds := range []bool{true, false} {
+		for _, m := range []string{"OPTIONS", "DESCRIBE", "ANNOUNCE", "SETUP", "PLAY"} {
+			for _, ch := range []string{
+				`Digest realm="v", nonce="n$N", stale=true`,
+				`Digest realm="r$N", nonce="8b84a3b789283a8bea8da7fa7d41f08b"`,
+				`Digest realm="v", nonce="n$N", algorithm="SHA-256"`,
+				`Basic realm="r$N"`,
+			} {
+				sc := &Script{Name: "sweep-401-changing", Model: true, Cfg: Cfg{Proto: 3, Creds: creds, RTms: g.rt}, Medias: medias, Prog: play}
+				if m == "ANNOUNCE" {
+					sc.Prog = rec
+				}
+				sc.React = []Reaction{{M: m, N: 0, Acts: []Action{{Kind: "resp", Muts: []Mut{{Op: "status", V: "401 Unauthorized"}, {Op: "set", K: "WWW-Authenticate", V: ch}}}}, Abs: "r,st=401,au=v"}}
+				out = append(out, sc)
+			}
+		}
+	}
 	return out
 }
